@@ -497,3 +497,25 @@ func modelString(v string) (string, bool) {
 	}
 	return sb.String(), true
 }
+
+// parseGetValueRaw: like parseGetValue but keeps arbitrary term names (tN) as keys
+func parseGetValueRaw(out string) map[string]string {
+	m := map[string]string{}
+	i := 0
+	for {
+		n, j := parseSx(out, i)
+		if n == nil {
+			break
+		}
+		i = j
+		if !n.isL {
+			continue
+		}
+		for _, pair := range n.list {
+			if pair.isL && len(pair.list) == 2 {
+				m[pair.list[0].String()] = pair.list[1].String()
+			}
+		}
+	}
+	return m
+}
